@@ -283,7 +283,7 @@ func StoreClassifyErr(err error) string {
 		return "exists"
 	case errors.Is(err, commits.ErrNotFound), errors.Is(err, commits.ErrWriteConflict), strings.Contains(s, "non-existent object"):
 		return "builderr"
-	case strings.Contains(s, "common ancestor"), strings.Contains(s, "error merging"):
+	case strings.Contains(s, "common ancestor"), strings.Contains(s, "error merging"), strings.Contains(s, "no path for nil commit ID"), strings.Contains(s, "cannot merge branch into itself"):
 		return "conflict"
 	case strings.Contains(s, "no such journal"), errors.Is(err, fs.ErrNotExist):
 		return "io"
